@@ -6,7 +6,7 @@ From Osmo Require Import C16.Model C16.Keys.
 
 Section Assoc.
 Context {V : Type}.
-Definition al := list (key * V).
+Notation al := (list (key * V)) (only parsing).
 
 Fixpoint al_set (l : al) (k : key) (v : V) : al :=
   match l with
@@ -160,7 +160,7 @@ Qed.
 
 End Assoc.
 
-Arguments al : clear implicits.
+Notation al V := (list (key * V)) (only parsing).
 
 (* mapping the values commutes with set *)
 Lemma map_al_set : forall {V W} (f : key -> V -> W) (l : al V) k v,
